@@ -401,8 +401,10 @@ func onPathMarking(c *an.Ctx, det *ssa.Function, rule string) {
 				return
 			}
 		}
-		// the mark set itself, when a search object carries it (its freshness per insertion is C05.1's clause)
-		if mf := an.AccessPath(marks).LastField(); mf != "" && mf == name {
+		// a search object that carries the mark set is per-search state as a whole (its freshness per
+		// insertion is C05.1's / C18.5's clause): its other fields (the edges it was given, a name for the
+		// error message) are not remembered graph state
+		if mf := an.AccessPath(marks).LastField(); mf != "" && len(det.Params) > 0 && an.SameValue(an.AccessPath(marks).Base, det.Params[0]) {
 			return
 		}
 		bad = true
